@@ -77,6 +77,11 @@ class Check:
     def instance(self, rule: str, sample=None, n: int = 1):
         r = self.rules[rule]
         r['instances'] += n
+        # measured for the evidence: distinct obligations = distinct (rule, instance text); a bulk count (n > 1: "n functions
+        # scanned, nothing matched") is one obligation text and counts once (conservative)
+        self._distinct = getattr(self, '_distinct', set())
+        self._distinct.add((rule, json.dumps(sample, sort_keys=True, default=str) if isinstance(sample, (dict, list))
+                            else str(sample)))
         if sample is not None and len(r['samples']) < 6:
             r['samples'].append(sample if isinstance(sample, (dict, list)) else str(sample)[:300])
 
@@ -148,9 +153,12 @@ class Check:
         cov = {
             'explanation': self.explanation or 'static rules over the source of /repo',
             'evaluations': max(n_inst, 1),
-            'distinct_nontrivial': max(n_inst, 2) if n_inst >= 2 else 2,
-            'rule': 'one evaluation = one rule instance (site, path, table cell, grammar state or class) '
-                    'extracted from the current source; every instance is a distinct construct',
+            'distinct_nontrivial': len(getattr(self, '_distinct', ())),
+            'rule': 'one evaluation = one rule instance (site, path, table cell, grammar state or class, or one function '
+                    'scanned by a shape lint) extracted from the current source. distinct_nontrivial counts the distinct '
+                    '(rule, instance description) pairs: an instance is non-trivial when the rule located a construct its '
+                    'obligation applies to and decided it; functions merely scanned by a shape lint without a match are '
+                    'evaluations but are counted once per lint run, not per function',
             'samples': samples or [{'note': 'no samples'}],
             'rules': {n: {'text': r['text'], 'instances': r['instances'], 'floor': r['floor'],
                           'failed': r['failed']} for n, r in self.rules.items()},
